@@ -240,8 +240,44 @@ def table_success_layouts(ff):
     return {"table_rows": rows, "distinct": rows, "violations": violations, "samples": samples}
 
 
+def table_planar_dihedrals():
+    """utilities.dihedral (called for every torsion of every residue in debumping and optimisation set-up) returns a
+    value for exactly planar atom quadruples - cis and trans, in planes whose unit normals do not square to exactly 1
+    in floating point - instead of raising (math domain error aborts the whole run).  Finite menu of three-decimal
+    coordinates in the planes x = y, x = 2y, x + y + z = 0 (table lemma: enumeration, not symbolic)."""
+    from pdb2pqr import utilities
+
+    rows, violations = 0, []
+    planes = {"x=y": lambda a, b: (a, a, b), "x=2y": lambda a, b: (2 * a, a, b), "x+y+z=0": lambda a, b: (a, b, -a - b)}
+    vals = [0.123, 1.457, -2.311, 3.079, 0.998, -0.456]
+    def cross(u, v):
+        return (u[1] * v[2] - u[2] * v[1], u[2] * v[0] - u[0] * v[2], u[0] * v[1] - u[1] * v[0])
+
+    for pname, f in planes.items():
+        for i in range(36):
+            quad = [tuple(round(v, 3) for v in f(vals[(i + k) % 6], vals[(i // 6 + 2 * k + 1) % 6])) for k in range(4)]
+            b = [tuple(quad[k + 1][j] - quad[k][j] for j in range(3)) for k in range(3)]
+            if not any(cross(b[0], b[1])) or not any(cross(b[1], b[2])):
+                continue  # three collinear atoms: the torsion is undefined, not the subject here
+            rows += 1
+            try:
+                v = utilities.dihedral(*[list(p) for p in quad])
+                if v != v:
+                    raise ValueError("nan")
+            except (ValueError, ZeroDivisionError) as e:
+                violations.append({"label": "dihedral-defined-for-planar-atoms", "values": {"plane": pname, "points": str(quad)}, "reproduced": True, "replay_detail": f"utilities.dihedral raised {type(e).__name__}: {e} for coplanar points {quad}"})
+    return {"table_rows": rows, "distinct": rows, "violations": violations, "samples": [{"rows": rows}]}
+
+
 def obligations(tier):
     obs = []
+    obs.append(Obligation("success-planar-dihedrals", table_planar_dihedrals, {}, kind="table", group="success"))
+    # protonated acids (named ASH / GLH in the input) through every history of the real carboxylic optimisation + cleanup end
+    # with one acid proton, i.e. a state every force field that knows ASH / GLH parameterises to an integral charge (C03/C14's harness)
+    from . import c14
+
+    for resname in ("ASH", "GLH"):
+        obs.append(Obligation(f"success-carboxylic-{resname}", c14.h_carboxylic_site, dict(resname=resname, prop="C03"), group="success-carboxylic", time_cap=1500, max_paths=100000))
     for ff in ("amber", "parse", "charmm") if tier == "quick" else ("amber", "charmm", "parse", "peoepb", "swanson", "tyl06"):
         obs.append(Obligation(f"success-layouts-{ff}", table_success_layouts, dict(ff=ff), kind="table", group="success"))
     for ff in (0, 1, 2):
